@@ -2,6 +2,7 @@ package decoder
 
 import (
 	"fmt"
+	"math"
 	"reflect"
 	"unsafe"
 
@@ -157,6 +158,10 @@ func (d *uintDecoder) DecodeStream(s *Stream, depth int64, p unsafe.Pointer) err
 		if (1 << 32) <= u64 {
 			return d.typeError(bytes, s.totalOffset())
 		}
+	case reflect.Uint, reflect.Uintptr:
+		if math.MaxUint < u64 {
+			return d.typeError(bytes, s.totalOffset())
+		}
 	}
 	d.op(p, u64)
 	return nil
@@ -186,6 +191,10 @@ func (d *uintDecoder) Decode(ctx *RuntimeContext, cursor, depth int64, p unsafe.
 		}
 	case reflect.Uint32:
 		if (1 << 32) <= u64 {
+			return 0, d.typeError(bytes, cursor)
+		}
+	case reflect.Uint, reflect.Uintptr:
+		if math.MaxUint < u64 {
 			return 0, d.typeError(bytes, cursor)
 		}
 	}
